@@ -4,6 +4,7 @@ import (
 	"encoding/json"
 	"fmt"
 	"os"
+	"strings"
 	"time"
 )
 
@@ -89,6 +90,23 @@ func RunSeq(r *Run, spec SeqSpec) {
 			}
 			return false
 		})
+		// a history on which the worker process died: replay it alone; a second death is the implementation (or the
+		// harness) terminating the process on this history, not a matter of budget
+		died := 0
+		for i, res := range results {
+			if !strings.Contains(res.Err, "worker died") || died >= 5 {
+				continue
+			}
+			died++
+			again := pool.Do([]json.RawMessage{tasks[i]}, nil)
+			if strings.Contains(again[0].Err, "worker died") {
+				r.AddViolation(Violation{Key: spec.Name + ":process-dies|" + histString(hists[i]), Engine: "SEQ:" + spec.Name,
+					What:   "replaying this history terminates the worker process with an unrecoverable error, twice in a row (" + again[0].Err + "): " + histString(hists[i]),
+					Replay: map[string]interface{}{"worker": spec.WorkerArgs, "hist": hists[i], "params": spec.Params}})
+			} else if rr, ok := decodeSeq(r, spec, again[0], hists[i]); ok {
+				decoded[i] = &rr
+			}
+		}
 		var next [][]json.RawMessage
 		newStates := 0
 		ltrans := 0
